@@ -488,6 +488,16 @@ impl Lexer<'_> {
                     break;
                 }
                 verif::call_iter_hook();
+                if let Some(mode) = self.mode_stack.last() {
+                    let idx = verif::cover_index(
+                        verif::mode_index(mode),
+                        self.checkpoint.is_some(),
+                        verif::char_class(next_char),
+                    );
+                    if let Some(word) = self.verif.dispatch_cover.get_mut(idx / 64) {
+                        *word |= 1 << (idx % 64);
+                    }
+                }
             }
 
             self.lex_token(next_char);
